@@ -32,6 +32,11 @@ def run(ctx):
     # the checksum helpers the unlock arms rely on really compare (shared with C18)
     from rules import c18
     c18.checksum_helpers(ctx, P)
+    # a locked key that was serialised is parsed again: serialiser, length query and parser place the v6-only octets at the same places,
+    # and a check of the cumulative count octet counts what was read (shared with C05)
+    from rules import c05
+    c05.version_conditional_fields(ctx, P)
+    c05.cumulative_count_check_agrees(ctx, P)
 
 
 def unlock(ctx, P):
